@@ -1,0 +1,17 @@
+//go:build verif
+
+package vgirpc
+
+// Verification hooks (build tag "verif") for the XFCC parsing helpers.
+// Add-only; nothing here is compiled into normal builds.
+
+// VerifC24SplitRespectingQuotes splits text at delimiter outside quoted runs.
+func VerifC24SplitRespectingQuotes(text string, delimiter byte) []string {
+	return splitRespectingQuotes(text, delimiter)
+}
+
+// VerifC24UnescapeQuoted removes backslash escapes from the inside of a quoted value.
+func VerifC24UnescapeQuoted(text string) string { return unescapeQuoted(text) }
+
+// VerifC24ExtractCN extracts the CN value from a subject DN string.
+func VerifC24ExtractCN(subject string) string { return extractCN(subject) }
